@@ -120,7 +120,7 @@ def plan(seed, subbatch):
     offset = cfg.choice((None, None, None, 60, 330, -210, 345))
     neighbours = sample_neighbours(sub_rng(seed, "neighbours"), tf, offset)
     return {"format": 1, "property": ID, "seed": seed, "subbatch": subbatch,
-            "config": {"neighbours": neighbours, "lifespan_s": lifespan, "process_tz": env[0] if env else None, "route": route, "tf": tf, "base_s": base_s, "level_tf": level, "siblings": siblings,
+            "config": {"sim_now": planlib.pick_sim_now(sub_rng(seed, "sim-now"), rows), "neighbours": neighbours, "lifespan_s": lifespan, "process_tz": env[0] if env else None, "route": route, "tf": tf, "base_s": base_s, "level_tf": level, "siblings": siblings,
                        # timezone-aware streams (fixed offsets that do not divide the larger timeframes)
                        "utc_offset_min": offset},
             "ops": ops, "fired": dict(fired)}
